@@ -128,7 +128,7 @@ class C19(Check):
     world = 'stats'
     level = 'exploration'
     design_ref = 'DESIGN.md 3.12'
-    runs = {'quick': 3000, 'thorough': 80000}
+    runs = {'quick': 6000, 'thorough': 150000}
     shrink_lists = (('ops',), ('config', 'table'))
     rule = ('(i) seeded histories over generated routing tables (every outcome kind, overlapping patterns, '
             'non-breaking fallthrough, 404/405 on the catch-all route) of requests, report reads, resets, clock '
